@@ -163,6 +163,17 @@ CHECKS = {
               "source with a different error state (zombie/denied/gone) are not compared. The 'first read' moment is observed on psutil's per-object cache."),
         design="DESIGN.md section 3 C16",
     ),
+    "C17": dict(
+        level="exploration",
+        technique="sanitizer-instrumented fuzzing with Hypothesis: type-directed argument generation for every extension entry point plus format-aware utmp / mounts record generation with independent decoders, run under ASan+UBSan in journaled child processes",
+        text=("The C extension is rebuilt with AddressSanitizer and UBSan (no recovery) and driven in child processes that journal each case before running it. Generated: arguments of any size, "
+              "sign and type (incl. hostile sequences) to all entry points and the public wrappers; utmp files with full-width unterminated fields, every record type, partial records; mounts and "
+              "filesystems files with escapes, comments, short lines, hundreds of entries and 70 kB names; the live interface list. Oracles: no sanitizer report / abnormal exit; users() equals an "
+              "independent struct decoding; disk_partitions() equals an independent getmntent(3) model and the documented filter; interfaces agree with /sys/class/net and /proc/net/if_inet6. Search, not proof."),
+        note=("Trusted: gcc 12 sanitizer runtimes, the struct decoder and getmntent model in props/c17_cext.py. Coverage-guided byte fuzzing not used (scalar entry points, format-aware records instead); "
+              "lines over 2000 bytes are crash-only; MAC formatting sees only the sandbox NICs."),
+        design="DESIGN.md section 3 C17",
+    ),
     "C18": dict(
         level="exploration",
         technique="property-based testing (Hypothesis): generated setter sequences applied to a live sacrificial child with a differential oracle against independent kernel reads, plus a simulated tier logging what reaches the extension",
@@ -183,6 +194,18 @@ CHECKS = {
         note=("Trusted: vlib/simk.py file/glob layer. The sandbox has no hwmon/thermal/battery/cpufreq, so there is no live tier; chip name files always present; fan inputs numeric; "
               "PYTHONHASHSEED fixed to 0 (set iteration order of trip points)."),
         design="DESIGN.md section 3 C19",
+    ),
+    "C20": dict(
+        level="exploration",
+        technique="property-based testing (Hypothesis) over seven impersonated platforms with generated stub native layers: fault plans (errno x native-call index x zombie) and distinct-slot records against hand-derived slot tables",
+        text=("Each non-Linux platform module is imported in its own process under a forged sys.platform / os.name with stub native modules. Generated fault plans make the n-th native call of "
+              "every public Process method fail with each errno (Windows error code), with the PID still listed as a zombie or not, a cached name or not, PID 0 listed or not: the exception must be "
+              "NoSuchProcess / ZombieProcess / AccessDenied with pid and cached name, or the original error unchanged, per the per-platform contract. Records whose every slot holds a distinct "
+              "value must surface in the documented named tuple fields according to slot tables hand-derived from the native builders. Front-end post-processing (MAC padding, Windows broadcast) "
+              "and documented name availability are checked per platform. Search, not proof."),
+        note=("Trusted: the stub native modules and slot tables in props/c20_platforms.py. The native C/Obj-C code of other platforms is not compiled or executed. A failure swallowed by a "
+              "documented fall-back is counted, not judged; Windows ppid() (system-wide native call only) is crash-freedom only."),
+        design="DESIGN.md section 3 C20",
     ),
 }
 
